@@ -17,6 +17,7 @@ impl<const SIZE: usize> MemBuilder for Stack<SIZE>{
 
     #[inline]
     fn build(&mut self, element_layout: Layout) -> StackMem<SIZE> {
+        assert!(element_layout.align() <= super::STACK_MAX_ALIGN, "Unsupported alignment!");
         let size =
             if element_layout.size() == 0{
                 usize::MAX
@@ -32,6 +33,10 @@ impl<const SIZE: usize> MemBuilder for Stack<SIZE>{
     }
 }
 
+// `mem` comes first and the struct is over-aligned, so that the byte buffer is
+// suitably aligned for any element type with alignment up to `STACK_MAX_ALIGN`,
+// wherever the vector itself is placed.
+#[repr(C, align(64))]
 pub struct StackMem<const SIZE: usize>{
     mem: MaybeUninit<[u8; SIZE]>,
     element_layout: Layout,
